@@ -39,6 +39,10 @@ def _decide_far_from_primaries(op, d):
     syms = {s.name for s in d.free_symbols}
     if op in ("lt", "le") and any(n.startswith("r") and n.endswith("_") for n in syms):
         return False
+    if op in ("eq", "ne"):
+        # an equality test on a generic state: false at the generic point; the measure-zero sets such a branch can select
+        # (coordinate planes and axes) are covered by the specialised obligations "field on z = 0 / y = 0 / y = z = 0"
+        return op == "ne"
     raise AssertionError("unexpected data-dependent branch in C01 code: %s %s 0" % (d, op))
 
 
@@ -183,6 +187,25 @@ def run(chk):
                     lambda i=i: require_identity(red, get_field()[i], spec_f[i], symbols=allsyms),
                     sample=f"_crtbp_accel[{i}] - (v, 2Kv+grad Omega)[{i}] == 0 mod r1^2=.., r2^2=..")
 
+        # ---- 1b. the same on the coordinate planes / axes (exact zeros, so that any special-case branch is taken) ----
+        for tag, zero in (("z = 0", (z,)), ("y = 0", (y,)), ("y = z = 0", (y, z)), ("z = vz = 0", (z, vz))):
+            def th_plane(zero=zero, tag=tag):
+                sub = {v: 0 for v in zero}
+                stp = xarr([0 if v in zero else v for v in xs])
+                got = vals(rtbp._crtbp_accel(stp, X(mu)))
+                xx, yy, zz, vxx, vyy, vzz = [sp.Integer(0) if v in zero else v for v in xs]
+                r1p = alg.sqrt((xx + mu) ** 2 + yy ** 2 + zz ** 2)
+                r2p = alg.sqrt((xx - 1 + mu) ** 2 + yy ** 2 + zz ** 2)
+                # grad Omega of the property's Omega = (x^2+y^2)/2 + (1-mu)/r1 + mu/r2, restricted to the plane
+                want = [vxx, vyy, vzz,
+                        2 * vyy + xx - (1 - mu) * (xx + mu) / r1p ** 3 - mu * (xx - 1 + mu) / r2p ** 3,
+                        -2 * vxx + yy - (1 - mu) * yy / r1p ** 3 - mu * yy / r2p ** 3,
+                        -(1 - mu) * zz / r1p ** 3 - mu * zz / r2p ** 3]
+                for i in range(6):
+                    require_identity(red, got[i], want[i], symbols=allsyms, key_prefix=f"field[{i}] on {tag}")
+            chk.obl(f"field on {tag} (exact zeros): all six components == spec", "K1 identity", [RT + ":_crtbp_accel"],
+                    "B3 sympy normal form", th_plane)
+
         # ---- 2. Jacobian == derivative of the field ----------------------------
         def get_J():
             if "J" not in holder:
@@ -323,12 +346,18 @@ def run(chk):
         import hiten.algorithms.types.services.libration as sl
 
         def th_orbit_service():
-            stub = _Stub()
-            stub.initial_state = st
-            stub.mu = X(mu)
+            from pyvc.core import real_self
+            stub = real_self(so._OrbitDynamicsService, _initial_state=st, mu=X(mu))
             E = val(so._OrbitDynamicsService.energy.fget(stub))
             require_identity(red, lie(E), 0, symbols=allsyms, key_prefix="dE/dt(orbit.energy)",
                              replay_builder=lambda pt: _replay_energy("E.crtbp_energy(q,mu)", pt))
+            # history: the state is replaced (as a correction does) and the energy is read again - it is the energy of the
+            # state the orbit has NOW
+            st2 = xarr([2 * x, y + 1, z, vx, 3 * vy, vz])
+            stub._initial_state = st2
+            E2 = val(so._OrbitDynamicsService.energy.fget(stub))
+            require_identity(red, E2, val(energy.crtbp_energy(st2, X(mu))), symbols=allsyms,
+                             key_prefix="orbit.energy after the state was replaced is not the energy of the current state")
             stub2 = _Stub()
             stub2.energy = X(sp.Symbol("Eo", real=True))
             Cj = val(so._OrbitDynamicsService.jacobi_constant.fget(stub2))
